@@ -89,9 +89,32 @@ struct counting_integrand
 };
 
 template <typename T>
-static void part_b_plain(report& r, sz total, int world)
+struct counting_mc_integrand
 {
-    std::string const id = std::string("mpi_plain ") + vf::type_name<T>() + " total=" + std::to_string(total)
+    T operator()(hep::multi_channel_point<T> const& p) const
+    {
+        ++counting_integrand<T>::calls();
+        return T(1) + p.coordinates()[0];
+    }
+};
+
+template <typename T>
+struct id_map
+{
+    T operator()(sz, std::vector<T> const& rn, std::vector<T>& coords, std::vector<sz> const&, std::vector<T>& dens, hep::multi_channel_map action) const
+    {
+        if (action == hep::multi_channel_map::calculate_coordinates) { coords[0] = rn[0]; return T(1); }
+        for (auto& d : dens) d = T(1);
+        return T(1);
+    }
+};
+
+// kind 0 mpi_plain (2 numbers per call), 1 mpi_vegas (2), 2 mpi_multi_channel (1 + channel = 2)
+template <typename T>
+static void part_b(report& r, int kind, sz total, int world)
+{
+    char const* const names[] = {"mpi_plain", "mpi_vegas", "mpi_multi_channel"};
+    std::string const id = std::string(names[kind]) + " " + vf::type_name<T>() + " total=" + std::to_string(total)
         + " world=" + std::to_string(world);
     if (!r.want(id)) return;
     r.eval();
@@ -99,16 +122,28 @@ static void part_b_plain(report& r, sz total, int world)
     std::vector<std::uint64_t> end_pos(world);
     std::vector<sz> reported(world);
     vf::mpi_env env(world);
+    using E = vf::script_engine;
     auto outcome = env.run([&](int rank) {
         counting_integrand<T>::calls() = 0;
-        auto chk = hep::mpi_plain(MPI_COMM_WORLD,
-            hep::make_integrand<T>(counting_integrand<T>(), 2),
-            std::vector<sz>{total},
-            hep::make_plain_chkpt<T, vf::script_engine>(),
-            hep::mpi_callback<hep::plain_chkpt_with_rng<vf::script_engine, T>>(hep::callback_mode::silent));
+        if (kind == 0)
+        {
+            auto chk = hep::mpi_plain(MPI_COMM_WORLD, hep::make_integrand<T>(counting_integrand<T>(), 2), std::vector<sz>{total},
+                hep::make_plain_chkpt<T, E>(), vf::never_stop_mpi());
+            end_pos[rank] = chk.generator().position(); reported[rank] = chk.results().back().calls();
+        }
+        else if (kind == 1)
+        {
+            auto chk = hep::mpi_vegas(MPI_COMM_WORLD, hep::make_integrand<T>(counting_integrand<T>(), 2), std::vector<sz>{total},
+                hep::make_vegas_chkpt<T, E>(3, T(1.5), E()), vf::never_stop_mpi());
+            end_pos[rank] = chk.generator().position(); reported[rank] = chk.results().back().calls();
+        }
+        else
+        {
+            auto chk = hep::mpi_multi_channel(MPI_COMM_WORLD, hep::make_multi_channel_integrand<T>(counting_mc_integrand<T>(), 1, id_map<T>(), 1, 2),
+                std::vector<sz>{total}, hep::make_multi_channel_chkpt<T, E>(T(), T(0.25), E()), vf::never_stop_mpi());
+            end_pos[rank] = chk.generator().position(); reported[rank] = chk.results().back().calls();
+        }
         per_rank[rank] = counting_integrand<T>::calls();
-        end_pos[rank] = chk.generator().position();
-        reported[rank] = chk.results().back().calls();
     });
     if (!outcome.ok)
     {
@@ -120,17 +155,17 @@ static void part_b_plain(report& r, sz total, int world)
     {
         sum += per_rank[k]; mn = std::min(mn, per_rank[k]); mx = std::max(mx, per_rank[k]);
         if (per_rank[k] != sub_calls(total, k, world))
-            r.violate("sub_calls-copy-differs-from-code", id, "rank " + std::to_string(k) + " evaluated "
+            r.violate("sub_calls-copy-differs-from-code", id, id + ": rank " + std::to_string(k) + " evaluated "
                 + std::to_string(per_rank[k]) + " points, the harness copy of sub_calls says "
                 + std::to_string(sub_calls(total, k, world)));
         if (end_pos[k] != 2 * total)
-            r.violate("rank-does-not-end-at-total", id, "rank " + std::to_string(k) + " ends at stream position "
+            r.violate("rank-does-not-end-at-total", id, id + ": rank " + std::to_string(k) + " ends at stream position "
                 + std::to_string(end_pos[k]) + " instead of " + std::to_string(2 * total));
         if (reported[k] != total)
-            r.violate("calls-do-not-sum-to-total", id, "reported calls " + std::to_string(reported[k]));
+            r.violate("calls-do-not-sum-to-total", id, id + ": reported calls " + std::to_string(reported[k]));
     }
-    if (sum != total) r.violate("calls-do-not-sum-to-total", id, "sum of per-rank evaluations " + std::to_string(sum));
-    if (mx - mn > 1) r.violate("calls-differ-by-more-than-one", id, "max-min=" + std::to_string(mx - mn));
+    if (sum != total) r.violate("calls-do-not-sum-to-total", id, id + ": sum of per-rank evaluations " + std::to_string(sum));
+    if (mx - mn > 1) r.violate("calls-differ-by-more-than-one", id, id + ": max-min=" + std::to_string(mx - mn));
     r.validated();
     if (total % world) r.distinct(vf::hash_str(id));
 }
@@ -209,15 +244,17 @@ int main(int argc, char** argv)
     }
 
     // part B: real integrators
-    if (a.shard == 0 && r.want_prefix("mpi_plain"))
+    if (a.shard == 0 && r.want_prefix("mpi_"))
     {
         std::vector<sz> const totals = {0, 1, 2, 3, 5, 7, 8, 10, 31, 33, 64, 100};
         int const maxw = a.thorough() ? 33 : 12;
+        vf::script_engine::table().clear();
+        for (int kind = 0; kind != 3; ++kind)
         for (int w = 1; w <= maxw; ++w)
             for (sz t : totals)
             {
-                part_b_plain<double>(r, t, w);
-                if (a.thorough()) { part_b_plain<float>(r, t, w); part_b_plain<long double>(r, t, w); }
+                part_b<double>(r, kind, t, w);
+                if (a.thorough()) { part_b<float>(r, kind, t, w); part_b<long double>(r, kind, t, w); }
             }
     }
 
